@@ -491,6 +491,14 @@ impl<'a> G<'a> {
                     info.range = r;
                     s.push(' ');
                     s.push_str(&c);
+                    // serial application of a second, narrower constraint
+                    if let Some((lo, hi)) = r {
+                        if hi - lo >= 4 && self.rng.chance(1, 8) {
+                            let (lo2, hi2) = (lo + 1, hi - 1);
+                            s.push_str(&format!(" ({lo2}..{hi2})"));
+                            info.range = Some((lo2, hi2));
+                        }
+                    }
                 }
                 s
             }
@@ -509,7 +517,8 @@ impl<'a> G<'a> {
                     };
                     info.enumerals.push(e.clone());
                     if self.rng.chance(1, 5) {
-                        items.push(format!("{e}({})", 10 + k * 3));
+                        let num = if self.rng.chance(1, 4) { -(20 - k as i64 * 3) } else { 10 + k as i64 * 3 };
+                        items.push(format!("{e}({num})"));
                     } else {
                         items.push(e);
                     }
@@ -1006,7 +1015,19 @@ pub fn generate(rng: &mut Rng, cfg: &GenCfg) -> ModuleSet {
             for k in 0..extra {
                 let vname = format!("{}-x{}", p.stem.to_lowercase().trim_end_matches('-'), k);
                 let mut refs = vec![];
-                let text = match g.rng.below(7) {
+                let text = match g.rng.below(10) {
+                    7 => format!("{vname} SEQUENCE OF INTEGER ::= {{ {}, {} }}", g.rng.below(50), g.rng.below(50)),
+                    8 => format!("{vname} SET OF BOOLEAN ::= {{ TRUE, FALSE }}"),
+                    9 => {
+                        let bits: Vec<TypeInfo> = ctx.types.iter().filter(|t| t.cat == "bits" && !t.named_bits.is_empty()).cloned().collect();
+                        if !bits.is_empty() {
+                            let t = &bits[g.rng.below(bits.len())];
+                            refs.push(t.name.clone());
+                            format!("{vname} {} ::= {{ {} }}", t.name, t.named_bits[g.rng.below(t.named_bits.len())])
+                        } else {
+                            format!("{vname} BIT STRING ::= '0110'B")
+                        }
+                    }
                     0 => format!("{vname} BOOLEAN ::= {}", g.rng.pick(&["TRUE", "FALSE"])),
                     1 => format!("{vname} UTF8String ::= \"text {} \u{fc}\u{20ac}\"", g.rng.below(100)),
                     2 => format!("{vname} OCTET STRING ::= '{}'H", ["00", "DEADBEEF", "0A0B", "FF"][g.rng.below(4)]),
